@@ -30,6 +30,14 @@ func checkC11(w *World, r *Report) {
 	}
 	sd := ro.Shutdown
 	sname := FuncName(sd)
+	// ---- 0. "when shutdown returns no task is executing": shutdown waits for the jobs to be reported completed, which
+	// follows the return of Scheduler.Schedule — which therefore has to wait for every stage goroutine before every return,
+	// the cancel edge included (forced shutdown)
+	if s := w.FuncByName("taskctl", "(*Scheduler).Schedule"); s != nil {
+		ro.goPaired(r, "finished.stages-paired", s, true)
+	} else {
+		r.Undecided("finished.stages-paired", "taskctl.Scheduler.Schedule", "-", "not found")
+	}
 	isCall := func(x ssa.Instruction, suffix string) bool {
 		c := callCommonOf(x)
 		return c != nil && strings.HasSuffix(calleeName(c), suffix)
@@ -371,7 +379,10 @@ func persistCoverage(w *World, r *Report, ro *Roles) {
 		r.Undecided("persist.anchors", "persist request", "-", "not resolved")
 		return
 	}
-	isClean := func(f *ssa.Function) bool { return f == ro.Persist || f == ro.Save }
+	// a call of the save cleans only if the save is unconditional (decided first, below); a save with a "nothing changed"
+	// short cut is tied to the persist request: then only the request itself counts, also in front of Shutdown's deferred save
+	saveCleans := saveIsUnconditional(w, r, ro)
+	isClean := func(f *ssa.Function) bool { return f == ro.Persist || (saveCleans && f == ro.Save) }
 	// direct dirty instructions of a function
 	dirtyInstrs := func(fn *ssa.Function) []ssa.Instruction {
 		var out []ssa.Instruction
@@ -704,4 +715,135 @@ func checkSignals(w *World, r *Report, ro *Roles) {
 		}
 		r.Check(ok503, "signals.http-503", FuncName(h)+": shutting down → 503", w.Pos(h.Pos()), "ErrShuttingDown is answered with 503", "the schedule endpoint does not answer 503 while the runner is shutting down")
 	}
+}
+
+// saveIsUnconditional decides whether every call of the save hands the snapshot to the store. If a return of the save (or of
+// an exported wrapper) is reachable without the store's Save — a "nothing changed" short cut — the short cut must be tied to
+// the persist request: the skipping branch reads a runner field that the persist-request function writes. Then the caller
+// demands a persist request (not merely a later save) behind every change of persisted state, Shutdown's purge included.
+func saveIsUnconditional(w *World, r *Report, ro *Roles) bool {
+	if ro.Save == nil {
+		return true
+	}
+	type site struct {
+		fn     *ssa.Function
+		isSave func(*ssa.CallCommon) bool
+	}
+	sites := []site{{ro.Save, func(c *ssa.CallCommon) bool {
+		return c.IsInvoke() && c.Method.Name() == "Save" && strings.HasSuffix(c.Value.Type().String(), "store.DataStore")
+	}}}
+	for _, g := range ro.rootFuncs() {
+		if g == ro.Save || g == ro.Shutdown || g.Parent() != nil || g.Object() == nil || !g.Object().Exported() {
+			continue
+		}
+		if len(findCalls(g, func(_ string, c *ssa.CallCommon) bool { return c.StaticCallee() == ro.Save })) > 0 {
+			sites = append(sites, site{g, func(c *ssa.CallCommon) bool { return c.StaticCallee() == ro.Save }})
+		}
+	}
+	// runner fields the persist request writes
+	marks := map[string]bool{}
+	if ro.Persist != nil {
+		allInstrs(ro.Persist, func(in ssa.Instruction) {
+			if st, ok := in.(*ssa.Store); ok {
+				if fa, ok := st.Addr.(*ssa.FieldAddr); ok {
+					marks[fieldNameOf(fa)] = true
+				}
+			}
+		})
+	}
+	unconditional := true
+	for _, s := range sites {
+		ok, res := saveReachesStore(w, s.fn, s.isSave)
+		if ok {
+			r.Check(true, "persist.save-unconditional", FuncName(s.fn)+": every path hands the snapshot to the store", w.Pos(s.fn.Pos()),
+				"no return is reachable without the store's Save (except for a runner without store)", "")
+			continue
+		}
+		unconditional = false
+		// the branch that skips: the last If on the found path; it must read a field the persist request writes
+		tied := false
+		for i := len(res.Blocks) - 1; i >= 0 && !tied; i-- {
+			b := s.fn.Blocks[res.Blocks[i]]
+			if ifi, ok := b.Instrs[len(b.Instrs)-1].(*ssa.If); ok {
+				var walk func(v ssa.Value, d int)
+				walk = func(v ssa.Value, d int) {
+					if d > 6 || v == nil {
+						return
+					}
+					switch x := v.(type) {
+					case *ssa.UnOp:
+						if fa, ok := x.X.(*ssa.FieldAddr); ok && marks[fieldNameOf(fa)] {
+							tied = true
+						}
+						walk(x.X, d+1)
+					case *ssa.BinOp:
+						walk(x.X, d+1)
+						walk(x.Y, d+1)
+					case *ssa.Phi:
+						for _, e := range x.Edges {
+							walk(e, d+1)
+						}
+					}
+				}
+				walk(ifi.Cond, 0)
+			}
+		}
+		r.Check(tied, "persist.save-unconditional", FuncName(s.fn)+": every path hands the snapshot to the store", w.Pos(s.fn.Pos()),
+			"the save can be skipped, on a condition over state the persist request writes: every change of persisted state must then be followed by a persist request itself (checked by persist.coverage, Shutdown included)",
+			"a return is reachable without calling the store's Save ("+res.String()+") and the skipping condition reads nothing the persist request writes: changes made since the last save can be left out of the store")
+	}
+	return unconditional
+}
+
+func fieldNameOf(fa *ssa.FieldAddr) string {
+	t := fa.X.Type().Underlying()
+	if p, ok := t.(*types.Pointer); ok {
+		t = p.Elem().Underlying()
+	}
+	if st, ok := t.(*types.Struct); ok && fa.Field < st.NumFields() {
+		return st.Field(fa.Field).Name()
+	}
+	return ""
+}
+
+// saveReachesStore: in fn no return is reachable from the entry without passing a call matched by isSave, except over
+// the nil edge of a test of the store itself (a runner without a store has nothing to save).
+func saveReachesStore(w *World, fn *ssa.Function, isSave func(*ssa.CallCommon) bool) (bool, PathResult) {
+	n := 0
+	allInstrs(fn, func(x ssa.Instruction) {
+		if c := callCommonOf(x); c != nil {
+			if _, isDefer := x.(*ssa.Defer); !isDefer && isSave(c) {
+				n++
+			}
+		}
+	})
+	res := PathQuery{Fn: fn, Target: isReturn,
+		BlockInstr: func(x ssa.Instruction) bool {
+			if c := callCommonOf(x); c != nil {
+				if _, isDefer := x.(*ssa.Defer); !isDefer && isSave(c) {
+					return true
+				}
+			}
+			return false
+		},
+		BlockEdge: func(b *ssa.BasicBlock, si int) bool {
+			ifi, ok := b.Instrs[len(b.Instrs)-1].(*ssa.If)
+			if !ok {
+				return false
+			}
+			op, l, rr, neg, konst := w.condAtom(ifi.Cond, 0)
+			if konst != nil {
+				return false
+			}
+			at, tv := canonAtom(op, l, rr, !neg)
+			if at.Op != "==" || at.R != "nil" || !strings.HasSuffix(at.L, ".store") {
+				return false
+			}
+			nilSucc := 1
+			if tv {
+				nilSucc = 0
+			}
+			return si == nilSucc
+		}}.Find()
+	return !res.Found && n > 0, res
 }
